@@ -123,7 +123,12 @@ def call_requests(c, cases, nvals, combos, widths=(4, 8)):
 
 def run_monitors(c, model, reqs, meta, classify):
     """evaluate the Lean monitors on the real trees; every FAIL is a concrete failing input"""
-    out = run_lines([model], reqs, timeout=1200)
+    # evaluated in chunks, each with a time and an address-space limit: on a broken implementation a tree
+    # may make the reference machine iterate over a garbage "length" read from the wrong place
+    out = []
+    CH = 400
+    for i in range(0, len(reqs), CH):
+        out += run_lines([model], reqs[i:i + CH], timeout=300, mem_gb=6)
     hist = {}
     for r, m, o in zip(reqs, meta, out):
         c.evaluations += 1
